@@ -56,22 +56,22 @@ type spec struct { // how to build a packet (inputs of a replay)
 }
 
 type qCase struct {
-	Kind     string   `json:"kind"` // pacing | leaky
-	Rate     int      `json:"rate"`
-	Rates    []int    `json:"rates,omitempty"` // mid-stream rate changes
-	Writers  [][]spec `json:"writers"`
-	Infos    []uint32 `json:"infos,omitempty"` // pacing: StreamInfo.SSRC per stream (default 1000+w)
+	Kind    string   `json:"kind"` // pacing | leaky
+	Rate    int      `json:"rate"`
+	Rates   []int    `json:"rates,omitempty"` // mid-stream rate changes
+	Writers [][]spec `json:"writers"`
+	Infos   []uint32 `json:"infos,omitempty"` // pacing: StreamInfo.SSRC per stream (default 1000+w)
 	// Hold > 0: the next writers of the streams, when called for the first Hold deliveries, do not look at the packet
 	// at once: first the pacer's own goroutine (inline, from inside the next writer's call) and then a second goroutine
 	// (while the call waits for it) each write one packet of Extra on an additional stream len(Writers). This forces
 	// the interleaving "a Write runs between the pacer taking a packet off its queue and the next writer consuming it".
-	Hold  int    `json:"hold,omitempty"`
-	Extra []spec `json:"extra,omitempty"`
-	Conc     bool     `json:"conc"`
-	Burst    int64    `json:"burst"`
-	Accepted [][]pk   `json:"-"`
-	Deliv    []pk     `json:"-"`
-	NDeliv   int      `json:"ndelivered"`
+	Hold     int    `json:"hold,omitempty"`
+	Extra    []spec `json:"extra,omitempty"`
+	Conc     bool   `json:"conc"`
+	Burst    int64  `json:"burst"`
+	Accepted [][]pk `json:"-"`
+	Deliv    []pk   `json:"-"`
+	NDeliv   int    `json:"ndelivered"`
 }
 
 // infoSSRC is the StreamInfo.SSRC stream w of a pacing-interceptor case is bound with.
@@ -1053,9 +1053,9 @@ func main() {
 		"env churn cases: backlog of 300..500 packets at 0.1..1.2 Mbit/s, a goroutine calls SetRate (same rate / different rates) every 2..10 ms for 300..500 ms while the backlog drains; "+
 		"close sets: Close called 0..60 ms into the traffic of 1..4 writers (sequential or concurrent), 1..3 writes per writer after Close returned, second Close; "+
 		"per call phase (before/racing/after Close) and result, delivered sequence, count delivered when Close returned vs 8 ms later, compared with the LTS with Close; "+
-			"pacing interceptor, all sets: in half of the cases the header SSRC of each packet is independent of the StreamInfo.SSRC of the stream written on (own / next stream's / unbound / 0), "+
-			"a quarter of the multi-stream cases bind all streams with one StreamInfo.SSRC; route set: one goroutine interleaves BindLocalStream calls (distinct, shared, zero and repeated "+
-			"StreamInfo.SSRC, also mid-traffic while packets are queued) with writes on any existing binding with any header SSRC; every delivery is stamped with the binding whose next writer "+
-			"received it and the stamped sequence must equal the accepted sequence",
+		"pacing interceptor, all sets: in half of the cases the header SSRC of each packet is independent of the StreamInfo.SSRC of the stream written on (own / next stream's / unbound / 0), "+
+		"a quarter of the multi-stream cases bind all streams with one StreamInfo.SSRC; route set: one goroutine interleaves BindLocalStream calls (distinct, shared, zero and repeated "+
+		"StreamInfo.SSRC, also mid-traffic while packets are queued) with writes on any existing binding with any header SSRC; every delivery is stamped with the binding whose next writer "+
+		"received it and the stamped sequence must equal the accepted sequence",
 		sets, extra, fails)
 }
